@@ -292,7 +292,7 @@ type engaStats struct {
 	maxPeriod                                                                                                     period
 	maxStep                                                                                                       step
 	sawLate, sawRedo, sawDown, pipelined, stageDigest, crashAttestCommit, disconnects, zeroPersist              int
-	verifyErr, doubleCrashInRound, holds                                                                                    int
+	verifyErr, doubleCrashInRound, holds, latePayloadMacro, payloadAfterNextVote                                                                                    int
 }
 
 type engaSim struct {
@@ -587,6 +587,10 @@ func (n *engaNode) submit(e externalEvent) {
 	}
 	if me, ok := e.(messageEvent); ok && (me.T == payloadPresent || me.T == votePresent) && me.ConsensusRound() == before.Round+1 && len(a) > 0 && a[0].t() != ignore {
 		s.stats.pipelined++
+	}
+	if me, ok := e.(messageEvent); ok && me.T == payloadVerified && me.Err == nil && before.Step >= next && me.Input.messageHandle != nil &&
+		me.Input.UnauthenticatedProposal.Round() == before.Round {
+		s.stats.payloadAfterNextVote++
 	}
 	if persistent(a) { // service.go:266-270
 		n.persistSet = true
